@@ -72,3 +72,28 @@ Definition uuid_from_str (std : option Z) (s : list Z) : res Z :=
   | Some n => Ok n
   | None => uuid_from_short_str (PStr s)
   end.
+
+(* ------------------------------------------------------------------ *)
+(* sequences of API calls made one after another in ONE process.
+   The three functions read the module-level constants and write nothing
+   (no cache, no lazily filled table, no mutable default argument), so the
+   model of a sequence is the single-call model applied to each call on its
+   own; the correspondence check runs whole sequences against the
+   implementation, which is what makes memory kept between calls visible. *)
+Inductive call :=
+| CToShort (u : Z)
+| CFromShort (a : pyarg)
+| CFromStr (std : option Z) (s : list Z).
+
+Inductive outcome :=
+| OStr (s : list Z)        (* uuid_to_short_str returned this string *)
+| ORes (r : res Z).        (* uuid_from_short_str / uuid_from_str returned / raised *)
+
+Definition eval_call (c : call) : outcome :=
+  match c with
+  | CToShort u => OStr (uuid_to_short_str u)
+  | CFromShort a => ORes (uuid_from_short_str a)
+  | CFromStr std s => ORes (uuid_from_str std s)
+  end.
+
+Definition eval_seq (l : list call) : list outcome := map eval_call l.
